@@ -13,14 +13,18 @@ from harness import c01 as H1
 
 RULE = ('FFT cases: every shape in {1..9}^2 (all parity pairs, square and not) plus a few up to 24x17, Q in {1,2,3,1.5,2.37,1.2}, '
         'complex (70%) / real input, float64 (85%) / float32 configuration: energy of focus/unfocus/pad2d, unfocus(focus)=id, '
-        'focus(unfocus)=id, Wavefront.focus/unfocus; band-complete cases: (m,Qy) and (n,Qx) drawn from all pairs with m*Q integer, '
+        'focus(unfocus)=id, unfocus(focus(f,Q),1)=pad2d(f,Q), Wavefront.focus (given and DEFAULT Q) / unfocus incl. space and dx '
+        'round trip; band-complete cases: (m,Qy) and (n,Qx) drawn from all pairs with m*Q integer, '
         'Q in {1,1.5,2,2.5,3,4/3,5/3,1.25}, shifts from {0,+-1,+-2.5,(1.5,-2.25)}: energy and idft2(dft2)=id / iczt2(czt2)=id; '
         'free-space cases: shapes as above, wavelength in [0.4,2] um (= lambda/1000 mm), dx (mm) log-uniform within one of four '
         'regimes relative to the wavelength: sub-wavelength lambda/40..lambda/2 (30%, the sampled band reaches beyond 1/lambda), '
         'lambda/2..4 lambda (15%), ordinary 0.01..1 mm (40%), coarse 1..200 mm (15%); z of both signs, zero (12%), well conditioned '
-        '(largest phase on the band 0.01..300 rad) or large (300..1e6 rad); Q in {1,2}: |H| = 1 at every sample of the transfer '
+        '(largest phase on the band 0.01..300 rad) or large (300..1e6 rad); Q in {1,1.5,2,3} and the function DEFAULT (Q=2); samples '
+        'given as tuple/list/int/np.int64: |H| = 1 at every sample of the transfer '
         'function, energy, identity at z=0, inverse at -z, additivity in z (tolerance widened by 16 eps x largest phase), '
-        'Wavefront.free_space. '
+        'the precomputed tf= branch of angular_spectrum and of Wavefront.free_space (with nonsense for the clobbered arguments), '
+        'Wavefront.free_space(dz, Q) incl. the returned object; the literal "A_0 f == f" is evaluated for every Q and is filtered as '
+        'the known finding asp-pads-never-crops exactly when the output equals pad2d(f, Q). '
         'Non-trivial = not 1x1; distinct = distinct (item, input) tuples')
 ASSUMPTIONS = ['scipy.fft.fft2/ifft2 compute the iterated 1-D DFT sums (1/(MN) on the inverse, 1/sqrt(MN) with norm=ortho); '
                'fftfreq(n,d)[k] = (k if k < (n+1)//2 else k-n)/(n d) (modelled; compared every run)',
@@ -47,7 +51,11 @@ def eclose(a, b, tol):
 
 def tols(c):
     low = c.get('precision', 64) == 32 or c.get('dtype') in ('complex64', 'float32')
-    return (ETOL32, TOL32) if low else (ETOL64, TOL64)
+    if not low:
+        return (ETOL64, TOL64)
+    sizes = [int(np.ceil(x * (c['Q'] if isinstance(c.get('Q'), (int, float)) else 2))) for x in c.get('shape', [1])] \
+        + list(c.get('samples', []))
+    return (ETOL32, H1.tol32(max(sizes)))          # single precision: array tolerance grows with the axis length
 
 
 arr2w, w2arr, close = H1.arr2w, H1.w2arr, H1.close
@@ -586,24 +594,28 @@ def replay(inp):
 MANIFEST_ENTRY = {
     'technique': 'Lean 4 proofs: root-of-unity orthogonality derived from the character laws (geometric sum), Gram matrix of the '
                  'centred/shifted DFT kernel = identity, abstract Parseval and left-inverse lemmas over finite sums, lifted to 2-D by '
-                 'separability; translator-generated glue; differential correspondence of the executable model with prysm',
+                 'separability; model routes parameterised by translator-generated flags / signs / wiring / coefficients; differential '
+                 'correspondence of the executable model with prysm',
     'text': ('PROVED for all inputs (every shape m x n of any parity, every padded/output shape, every shift, every field; kernel e any '
              'faithful character, conj any ring involution with conj(e t) = e(-t), nrm(1/N)^2 = 1/N; instantiated with exp(-2 pi i t), '
              'sqrt, complex conjugation): (1) orthogonality sum_k e(k d/L) = L [L | d]; (2) E E^H = 1 for the normalised centred / '
-             'shifted DFT kernel over a full period, and abstract Parseval from it; (3) focus and unfocus (fftshift.fft2.ifftshift with '
-             'norm=ortho, pad2d offset taken from the source) conserve energy INCLUDING the zero padding, for every padded shape >= the '
-             'input; pad2d alone conserves energy; unfocus(focus f) = f and focus(unfocus F) = F for every shape; (4) dft2/idft2 with '
-             'the wiring, exponent scalars and norms of the current source conserve energy onto the full band (M = m Qy, N = n Qx '
-             'integers >= m, n) and idft2(dft2 f) = f for every shift; the same round trip for iczt2(czt2 f) with both Bluestein legs '
-             'exactly as computed; (5) the angular-spectrum transfer function is a character in z (unit modulus, 1 at z=0, tf(z1+z2) = '
-             'tf(z1) tf(z2), tf(-z) tf(z) = 1) and the operator ifft2(fft2(f) tf) conserves energy, is the identity at z=0, composes '
-             'additively, and is undone at -z, for every shape, wavelength, spacing and distance (Q=1 grid). TRANSLATED from the source '
-             'and proved to match: pad2d offset and length, norm=ortho / shift order of focus and unfocus, matrix-DFT and chirp-Z glue '
-             '(as C01), the exponent coefficient of the transfer function (linear in z, wavelength/1000), (ky,kx) order, '
-             'angular_spectrum = ifft2(fft2 . tf), Wavefront.free_space delegation. MODELLED AND COMPARED each run: the NumPy execution '
-             'of all routes against the Lean model in Float, fftfreq index table, and every property predicate on the real outputs.'),
-    'note': ('Partial: for Q > 1 angular_spectrum pads and does not crop back, so identity / inverse / additivity are stated and checked '
-             'on the padded grid (the property text says the same); evanescent-wave physics is out of scope (the Fresnel transfer function '
-             'is what the code implements); scipy.fft enters with the contract "computes the DFT sum"; rounding is not covered (float64 '
-             'energies at 1e-10, float32 at 2e-4). Trusted: Lean kernel, Mathlib, translator, NumPy/SciPy primitives.'),
+             'shifted DFT kernel over a full period, and abstract Parseval from it; (3) focus and unfocus with the generated shift order / '
+             'norm / transform / pad offset conserve energy INCLUDING the zero padding, for every padded shape >= the input; pad2d alone '
+             'conserves energy; unfocus(focus(f,1),1) = f and focus(unfocus(F,1),1) = F for every shape; (4) dft2 / idft2 with the '
+             'generated kernel sign, flags, wiring, scalars and norms conserve energy onto the full band (M = m Qy, N = n Qx integers >= '
+             'm, n) and idft2(dft2 f) = f for every shift; the same (energy and round trip) for czt2 / iczt2 as interpreters over the '
+             'generated statement list, signs, glue, wiring and constants; (5) the transfer function built from the GENERATED coefficient '
+             '(additive in z: the one fact about the source these laws need), signs and axis order is a character in z (unit modulus at '
+             'EVERY sample - the translator also certifies that no sample is overwritten/masked after the exponential -, 1 at z=0, '
+             'tf(z1+z2) = tf(z1) tf(z2), tf(-z) tf(z) = 1) and equals the model one; the operator ifft2(fft2(f) tf) with the generated '
+             'norm flags of BOTH branches of angular_spectrum conserves energy, is the identity at z=0, composes additively and is undone '
+             'at -z on the grid it works on; the tf= branch conserves energy for every unit-modulus tf and equals the z branch; for Q != 1 '
+             'the output at z=0 is pad2d(f,Q) (theorem asp_padded_at_zero_is_pad = the known finding). ONLY COMPARED (no theorem): '
+             'unfocus(focus(f,Q),1) = pad2d(f,Q) for Q > 1; the Wavefront wrappers (spaces, dx round trip); fftfreq table.'),
+    'note': ('Known finding asp-pads-never-crops: angular_spectrum with Q != 1 (default Q=2) returns the padded grid and never crops, so '
+             'the literal "identity at zero distance / undoes itself / composes additively" hold on the padded grid only; no safe repair '
+             '(cropping back loses the diffracted energy). Evanescent-wave physics is out of scope (the Fresnel transfer function is what '
+             'the code implements); scipy.fft enters with the contract "computes the DFT sum"; rounding is not covered (float64 energies '
+             'at 1e-10, arrays 1e-9; float32 2e-4 / max(5e-5, 5e-7 n), comparisons involving two evaluations of the exponent widened by '
+             '16-32 eps x the largest phase on the band). Trusted: Lean kernel, Mathlib, translator, NumPy/SciPy primitives.'),
 }
